@@ -36,17 +36,32 @@ func transformReqs(
 
 	newReqs := make(map[string]project.RequirementConfig)
 
-	// First add requirements that existed in the old project.
+	// First add requirements that existed in the old project. A path may be required under several
+	// names: if the new list still has one entry per name (the list was left as it was), each name
+	// keeps its own entry; otherwise every name gets the highest version listed for the path.
+	occurrences := make(map[string][]module.Version)
 	for _, v := range newVersions {
-		if v.Path == "" {
-			continue
+		if v.Path != "" {
+			occurrences[v.Path] = append(occurrences[v.Path], v)
 		}
-		names, ok := oldProjects[v.Path]
+	}
+	for path, vs := range occurrences {
+		names, ok := oldProjects[path]
 		if !ok {
 			continue
 		}
-		for _, n := range names {
-			newReqs[n] = versionRequirement(v)
+		highest := vs[0]
+		for _, v := range vs[1:] {
+			if semver.Compare(v.Version, highest.Version) > 0 {
+				highest = v
+			}
+		}
+		for i, n := range names {
+			if len(vs) == len(names) {
+				newReqs[n] = versionRequirement(vs[i])
+			} else {
+				newReqs[n] = versionRequirement(highest)
+			}
 		}
 	}
 
